@@ -15,13 +15,13 @@ LEVELS = {
     'C04': ('payload taint/purity, completeness of payload loops and the storyBody splice (typestate on the deep copy) decided on every merge path; deep equality of arbitrary payload subtrees is NOT decided (deepcopy/ElementTree trusted)', '§4 C04'),
     'C05': ('whole property within the effect model: no exceptional exit (explicit, modelled implicit, may-alias remove) reachable after the first mutation of the running order, for every list length and fault position (loops iterated to a fix-point)', '§4 C05'),
     'C06': ('whole property within the effect model: every lookup miss / duplicate is raised or warned exactly once with the documented category, success paths are silent, accessors enumerate per ID', '§4 C06'),
-    'C12': ('nullness/partial-operation analysis with exception flow over all 24 merges (schema-shaped messages) and over classification (all well-formed documents): only library exceptions can escape', '§4 C12'),
-    'C07': ('the completion guard is interpreted for all 24 message classes (marker present => MosCompletedMergeError with an empty effect trace; completed is True after roDelete and False after any other merge), plus who-may-call / single-writer / direct-child rules; the ElementTree write/parse round trip itself is NOT decided', '§4 C07'),
+    'C12': ('nullness/partial-operation analysis with exception flow over all 24 merges (schema-shaped messages) and over classification (all well-formed documents): only library exceptions can escape; the collection loop, interpreted over messages that merge or raise MosMergeError, ends only normally or with MosMergeError', '§4 C12, §11'),
+    'C07': ('the completion guard is interpreted for all 24 message classes (marker present => MosCompletedMergeError with an empty effect trace; completed is True after roDelete and False after any other merge), the refusal is re-evaluated on a message about whose document nothing is assumed; the record holds a deep copy of the received roDelete; plus who-may-call / single-writer / direct-child rules; the ElementTree write/parse round trip itself is NOT decided', '§4 C07'),
     'C08': ('classification is interpreted over every presence combination of children: only MosInvalidXML/UnknownMosFileType escape, no Element truthiness, decision reads only the message element; both dispatch tables equal the documented tables; sibling constructors agree', '§4 C08'),
-    'C09': ('MosCollection.merge is interpreted (strict and non-strict) over a symbolic reader list of unknown length with messages that merge or raise MosMergeError: fold shape, fresh objects, application through +=, strict re-raise, exactly one MosMergeNonStrictWarning per failure; equality of serialisations is NOT decided', '§4 C09'),
+    'C09': ('MosCollection.merge is interpreted (strict and non-strict) over a symbolic reader list of unknown length with messages that merge or raise MosMergeError: fold shape, fresh objects, application through +=, strict re-raise, exactly one MosMergeNonStrictWarning per failure; the folded list is the one the constructors sorted; equality of serialisations is NOT decided', '§4 C09'),
     'C10': ('premises of permutation invariance: what reaches cls(...) in all three constructors (interpreted) is sorted() over all readers, numeric message-id ordering in both classes, no re-ordering before the fold; equality of merged output is NOT decided', '§4 C10, §18'),
-    'C11': ('the acceptance predicate of __init__/_validate is interpreted on exact representative reader lists (finite truth table incl. a roReplace dimension, two orders) and compared with the specification, incl. the exception type of every rejection and the empty list; no assert statement exists in the package (python -O)', '§4 C11, §18'),
-    'C14': ('ENVELOPE CLAUSE ONLY: root-level writers, untouched envelope children, single serializer. The round-trip clause (well-formed output that reads back identically, special characters intact) is NOT decided by this technique', '§4 C14'),
+    'C11': ('the acceptance predicate of __init__/_validate is interpreted on exact representative reader lists (finite truth table incl. a roReplace dimension, two orders and a third with equal types apart) and compared with the specification, incl. the exception type of every rejection and the empty list; no assert statement exists in the package (python -O)', '§4 C11, §18'),
+    'C14': ('ENVELOPE CLAUSE ONLY: root-level writers, untouched envelope children, single serializer, every merge behind the completion guard, all constructors parse with the default parser. The round-trip clause (well-formed output that reads back identically, special characters intact) is NOT decided by this technique', '§4 C14'),
     'C15': ('no builtin exception escapes any public read accessor for any presence combination of optional tags (exception-flow interpretation), listings are order-preserving pipelines, getters read their documented tags; value equality with the document is NOT decided', '§4 C15'),
     'C17': ('script/body pipelines are order preserving, body maps p/item correctly, and the 21-row decision table of the script filter over the finite string abstraction equals the specification; Unicode behaviour of str.strip is NOT decided', '§4 C17'),
     'C18': ('sibling agreement of the three sources (interpreted constructors and outcome sets), reader/restore pairing, reader fields, fresh objects, exhaustive S3 paging over a symbolic paginator; ElementTree bytes/str equivalence and boto3 are trusted', '§4 C18, §18'),
